@@ -8,8 +8,24 @@
 (* computes for the same                                                   *)
 (* character sequence.  Panics are outcome values (never expected).        *)
 (***************************************************************************)
-EXTENDS Parse, TLC, Json, IOUtils
+EXTENDS Front, Json, IOUtils
 Rec == ndJsonDeserialize(IOEnv.VH_RECS)
+(***************************************************************************)
+(* What a difference between the real parser and the mirror MEANS depends  *)
+(* on the property the inputs belong to (VH_MODE):                         *)
+(*   "contract" (C06, arbitrary strings): a violation is a panic, or an    *)
+(*        error position beyond the pattern; any other difference (tree    *)
+(*        shape, error kind or position, Ok vs Err) is SPEC DRIFT.         *)
+(*   "spelling" (C19, valid patterns written in some style): a violation   *)
+(*        is a pattern that does not parse, or whose tree MEANS something  *)
+(*        else than the mirror's (Front!Abs / Norm), or whose named-group  *)
+(*        map or referenced-group set differs; a different but equivalent  *)
+(*        tree shape is SPEC DRIFT.                                        *)
+(* Drift is reported (DRIFT lines, counted), never a verdict.              *)
+(***************************************************************************)
+Mode == IOEnv.VH_MODE
+Parse(chars) == PP!Parse(chars)
+BLen(chars) == PP!BLen(chars)
 Emit(tag, r) == PrintT("@@" \o tag \o " " \o ToJson(r))
 
 \* final name -> index map as a set of pairs (later insertions override earlier ones)
@@ -21,19 +37,27 @@ Expected(chars) == LET p == Parse(chars) IN
                    IF p.ok THEN [st |-> "ok", tree |-> p.e, names |-> NameSet(p.names), brefs |-> p.brefs]
                    ELSE [st |-> "err", kind |-> p.kind, pos |-> p.pos]
 
-VARIABLES l, nok, nrej, nokp, nerrp
-vars == <<l, nok, nrej, nokp, nerrp>>
-Init == l = 1 /\ nok = 0 /\ nrej = 0 /\ nokp = 0 /\ nerrp = 0
+MeaningOf(tree) == Norm(Abs(tree, 0).a)
+ContractOk(c, ob) == ob.st \in {"ok", "err"} /\ (ob.st = "err" => (ob.pos = -1 \/ (ob.pos >= 0 /\ ob.pos <= BLen(c.chars))))
+SpellingOk(ex, ob) == /\ ob.st = "ok" /\ ex.st = "ok"
+                      /\ MeaningOf(ob.tree) = MeaningOf(ex.tree) /\ ob.names = ex.names /\ ob.brefs = ex.brefs
+Acceptable(c, ex, ob) == IF Mode = "contract" THEN ContractOk(c, ob) ELSE SpellingOk(ex, ob)
+
+VARIABLES l, nok, nrej, nokp, nerrp, ndrift
+vars == <<l, nok, nrej, nokp, nerrp, ndrift>>
+Init == l = 1 /\ nok = 0 /\ nrej = 0 /\ nokp = 0 /\ nerrp = 0 /\ ndrift = 0
 TStep == /\ l <= Len(Rec) /\ l' = l + 1
          /\ LET c == Rec[l]  ex == TLCEval(Expected(c.chars))  ob == Observed(c) IN
             /\ nokp' = nokp + (IF ex.st = "ok" THEN 1 ELSE 0) /\ nerrp' = nerrp + (IF ex.st = "err" THEN 1 ELSE 0)
             /\ ((c.sametree /\ c.chars0 # <<>> /\ ex.st = "ok" /\ Expected(c.chars0).st = "ok" /\ Expected(c.chars0).tree # ex.tree)
                   => Emit("TREELEMMA", [id |-> c.id, chars |-> c.chars, chars0 |-> c.chars0]))
-            /\ IF ex = ob THEN nok' = nok + 1 /\ UNCHANGED nrej
-               ELSE nrej' = nrej + 1 /\ UNCHANGED nok /\ Emit("REJECT", [id |-> c.id, chars |-> c.chars, expected |-> ex, observed |-> ob])
+            /\ IF ex = ob THEN nok' = nok + 1 /\ UNCHANGED <<nrej, ndrift>>
+               ELSE IF Acceptable(c, ex, ob)
+               THEN nok' = nok + 1 /\ ndrift' = ndrift + 1 /\ UNCHANGED nrej /\ Emit("DRIFT", [id |-> c.id, chars |-> c.chars, expected |-> ex, observed |-> ob])
+               ELSE nrej' = nrej + 1 /\ UNCHANGED <<nok, ndrift>> /\ Emit("REJECT", [id |-> c.id, chars |-> c.chars, expected |-> ex, observed |-> ob])
 Done == /\ l = Len(Rec) + 1 /\ l' = l + 1
-        /\ Emit("STATS", [records |-> Len(Rec), ok |-> nok, rejected |-> nrej, parses |-> nokp, parse_errors |-> nerrp])
-        /\ UNCHANGED <<nok, nrej, nokp, nerrp>>
+        /\ Emit("STATS", [records |-> Len(Rec), ok |-> nok, rejected |-> nrej, parses |-> nokp, parse_errors |-> nerrp, drift |-> ndrift])
+        /\ UNCHANGED <<nok, nrej, nokp, nerrp, ndrift>>
 Spec == Init /\ [][TStep \/ Done]_vars
 Consumed == TLCGet("stats").diameter = Len(Rec) + 2
 =============================================================================
